@@ -154,4 +154,7 @@ Definition expected_vhost_http_group_facts : list string :=
 
 (* server/group/http.go: the endpoint id that goes into the reverse proxy's pool key is per JOIN (name#seq),
    so a member name that comes back never reuses connections to the former holder's backend *)
-Definition expected_http_group_endpoint_facts : list string := ["EndpointPerJoin"; "ChooseReturnsJoinEndpoint"].
+(* ... and pkg/plugin/server/manager.go: a NewProxy plugin is handed the content unaltered, so what frps adopts
+   from a plugin that answers with the content still carries the group key the client presented *)
+Definition expected_http_group_endpoint_facts : list string :=
+  ["EndpointPerJoin"; "ChooseReturnsJoinEndpoint"; "PluginGetsContentUnaltered"].
